@@ -51,6 +51,22 @@ Print Assumptions C17_is_path_checker.
 
 (* ---- the internal result of the loop, started as path_search starts it ---- *)
 
+(* the initial work list: the origin alone, cost 0, with the flag `add` of the origin; path_search
+   runs the loop with add := esel o and returns  map fst (filter snd els) *)
+Theorem C17_init : forall o add, init o add = {| p_elems := [(o, add)]; p_cost := 0 |}.
+Proof. exact init_eq. Qed.
+Print Assumptions C17_init.
+
+Theorem C17_path_search_unfold : forall rv d conds o dst,
+  node_id (gr d) o = true -> node_id (gr d) dst = true -> o <> dst ->
+  path_search rv d conds o dst =
+  match path_loop rv d conds dst (path_fuel (gr d)) [init o (esel rv d conds o)] [] with
+  | Some els => Some (map fst (filter snd els))
+  | None => None
+  end.
+Proof. exact path_search_unfold. Qed.
+Print Assumptions C17_path_search_unfold.
+
 (* soundness: a non-empty result is a path from the origin to the destination, all of whose
    elements after the origin are usable, each carrying its own selection flag *)
 Theorem C17_sound : forall rv d conds o dst add fuel els,
@@ -77,6 +93,14 @@ Theorem C17_empty_iff : forall rv d conds o dst add fuel els,
   (els = [] <-> forall q, is_path (gr d) o dst q -> ~ usable_path rv d conds q).
 Proof. exact path_loop_empty_iff. Qed.
 Print Assumptions C17_empty_iff.
+
+(* with the fuel path_search supplies, the loop always answers (every condition list) *)
+Theorem C17_loop_no_fuel : forall rv d conds dst,
+  adj_ok (gr d) -> forall o add, node_id (gr d) o = true ->
+  path_loop rv d conds dst (length (g_from (gr d)) * length (g_from (gr d)) + 2)
+            [ {| p_elems := [(o, add)]; p_cost := 0 |} ] [] <> None.
+Proof. exact path_loop_init_no_fuel. Qed.
+Print Assumptions C17_loop_no_fuel.
 
 (* ---- path_search itself ---- *)
 
